@@ -13,11 +13,14 @@ PoolFull == { [typ |-> 1, ts |-> <<Base, 0>>, msg |-> <<97>>, raw |-> FALSE],
               [typ |-> 1, ts |-> <<Base + 2, 123456789>>, msg |-> <<32, 10>>, raw |-> FALSE],
               [typ |-> 3, ts |-> <<0, 0>>, msg |-> <<111, 111, 109>>, raw |-> TRUE],
               [typ |-> 1, ts |-> <<0, 0>>, msg |-> <<120, 32, 97>>, raw |-> TRUE],      \* "x a": bad timestamp
-              [typ |-> 2, ts |-> <<0, 0>>, msg |-> <<120>>, raw |-> TRUE] }             \* "x": no space
+              [typ |-> 2, ts |-> <<0, 0>>, msg |-> <<120>>, raw |-> TRUE],              \* "x": no space
+              [typ |-> 1, ts |-> <<0, 0>>, msg |-> <<>>, raw |-> TRUE],                 \* empty payload: no timestamp either
+              [typ |-> 3, ts |-> <<0, 0>>, msg |-> <<>>, raw |-> TRUE] }                \* empty daemon error
 PoolQuick == { [typ |-> 1, ts |-> <<Base, 0>>, msg |-> <<97>>, raw |-> FALSE],
                [typ |-> 2, ts |-> <<Base + 1, 500000000>>, msg |-> <<32, 10>>, raw |-> FALSE],
                [typ |-> 3, ts |-> <<0, 0>>, msg |-> <<111>>, raw |-> TRUE],
-               [typ |-> 1, ts |-> <<0, 0>>, msg |-> <<120, 32, 97>>, raw |-> TRUE] }
+               [typ |-> 1, ts |-> <<0, 0>>, msg |-> <<120, 32, 97>>, raw |-> TRUE],
+               [typ |-> 2, ts |-> <<0, 0>>, msg |-> <<>>, raw |-> TRUE] }                \* empty payload
 Pool == IF PoolSet = "full" THEN PoolFull ELSE PoolQuick
 Frags == { <<>>, <<1>>, <<3>>, <<7>>, <<2, 5, 1>> }
 Chunk == {1, 3, 7, 64}          \* fragment sizes the environment may deliver in step 1
